@@ -53,6 +53,8 @@ Inductive rq : Type :=
 
 Inductive flt : Type :=
 | FField (name : string) (q : rq)
+| FFieldBad (name : string) (q : rq)   (* a Field whose range query holds a key of a type the index cannot
+                                          convert (RangeQuery::try_convert_from fails); q = its shape *)
 | FOr (fs : list flt)
 | FAnd (fs : list flt)
 | FNot (f : flt).
@@ -255,6 +257,9 @@ Fixpoint find_index (l : list (string * index)) (name : string) : option index :
 
 Definition ID_KEY : string := "_id".
 
+(* what an entry point can fail with *)
+Inductive qerr : Type := EBudget | EIndex | EType.
+
 Section Eval.
   (* iteration order of an FxHashSet built from the given vector: any duplicate-free
      enumeration of its elements (made a premise in the proofs) *)
@@ -271,8 +276,9 @@ Section Eval.
         if String.eqb name ID_KEY then by_id (c_ids c) q cand limit desc
         else match find_index (c_idx c) name with
              | Some ix => range_scan ix q desc cand (if leaf_bounded then limit else 0)
-             | None => []          (* Err(index not found): outside the model *)
+             | None => []          (* Err(index not found): see eval_err *)
              end
+    | FFieldBad _ _ => []          (* Err(key conversion): see eval_err *)
     | FOr fs =>
         isort ((fix loop (fs : list flt) (rt : list Z) : list Z :=
                   match fs with
@@ -294,6 +300,45 @@ Section Eval.
         let ex := eval g None 0 desc in
         isort (walk_vec (fun id => negb (memZ id ex) && cand_ok cand id) limit []
                         (if desc then rev (c_ids c) else c_ids c))
+    end.
+
+  (* The error, if any, that the same evaluation returns through `?`: the first one met in evaluation
+     order.  And stops (Ok(vec![])) as soon as its running intersection is empty, so operands after
+     that point are never evaluated and cannot fail. *)
+  Fixpoint eval_err (f : flt) (cand : option (list Z)) (desc : bool) : option qerr :=
+    match f with
+    | FField name _ =>
+        if String.eqb name ID_KEY then None
+        else match find_index (c_idx c) name with Some _ => None | None => Some EIndex end
+    | FFieldBad name _ =>
+        if String.eqb name ID_KEY then Some EType
+        else match find_index (c_idx c) name with Some _ => Some EType | None => Some EIndex end
+    | FOr fs =>
+        (fix loop (fs : list flt) : option qerr :=
+           match fs with
+           | [] => None
+           | g :: r => match eval_err g cand desc with Some e => Some e | None => loop r end
+           end) fs
+    | FAnd fs =>
+        match fs with
+        | [] => None
+        | f0 :: rest =>
+            match eval_err f0 cand desc with
+            | Some e => Some e
+            | None =>
+                (fix loop (rest : list flt) (rt : list Z) : option qerr :=
+                   match rest with
+                   | [] => None
+                   | g :: r =>
+                       match eval_err g (Some rt) desc with
+                       | Some e => Some e
+                       | None => let rt' := eval g (Some rt) 0 desc in
+                                 if is_nil rt' then None else loop r rt'
+                       end
+                   end) rest (eval f0 cand 0 desc)
+            end
+        end
+    | FNot g => eval_err g None desc
     end.
 
   (* Collection::filter_by_field *)
@@ -351,6 +396,7 @@ Fixpoint denote (c : coll) (f : flt) (id : Z) : bool :=
            | Some ix => field_matches ix q id
            | None => false
            end
+  | FFieldBad _ _ => false
   | FOr fs => existsb (fun g => denote c g id) fs
   | FAnd fs => negb (is_nil fs) && forallb (fun g => denote c g id) fs
   | FNot g => negb (denote c g id)
@@ -402,7 +448,7 @@ Section Budget.
     else
       let st := bump_node st in
       match f with
-      | FField _ q => match st with None => None | Some _ => validate_range q (S depth) st end
+      | FField _ q | FFieldBad _ q => match st with None => None | Some _ => validate_range q (S depth) st end
       | FOr fs | FAnd fs =>
           fold_left (fun st g => match st with None => None | Some _ => validate_filter g (S depth) st end)
                     fs (bump_branches (List.length fs) st)
@@ -423,7 +469,7 @@ Fixpoint rq_depth (q : rq) : nat :=
 (* the range queries occurring in a filter tree *)
 Fixpoint flt_ranges (f : flt) : list rq :=
   match f with
-  | FField _ q => [q]
+  | FField _ q | FFieldBad _ q => [q]
   | FOr fs | FAnd fs => flat_map flt_ranges fs
   | FNot g => flt_ranges g
   end.
@@ -431,3 +477,13 @@ Fixpoint flt_ranges (f : flt) : list rq :=
 (* a top-level Filter::Field on a B-tree index (not the primary key) *)
 Definition is_btree_leaf (f : flt) : bool :=
   match f with FField n _ => negb (String.eqb n ID_KEY) | _ => false end.
+
+(* a filter that names only existing indexes (or the primary key) and whose keys all convert *)
+Definition is_some {A} (o : option A) : bool := match o with Some _ => true | None => false end.
+Fixpoint filter_ok (c : coll) (f : flt) : bool :=
+  match f with
+  | FField n _ => String.eqb n ID_KEY || is_some (find_index (c_idx c) n)
+  | FFieldBad _ _ => false
+  | FOr fs | FAnd fs => forallb (filter_ok c) fs
+  | FNot g => filter_ok c g
+  end.
